@@ -1,7 +1,9 @@
 package c03
 
 import (
+	"fmt"
 	"math/rand"
+	"sort"
 	"strings"
 
 	"github.com/corazawaf/coraza/v3/verifharness/vh"
@@ -391,6 +393,123 @@ func (rn *runner) generate() error {
 		}
 	}
 
+	// 6d. bodies delivered in 1-4 chunks through WriteRequestBody / ReadRequestBodyFrom with
+	// SecRequestBodyLimit around the body size and on chunk boundaries, both limit actions
+	for i := 0; i < cfg.Pick(450, 3000); i++ {
+		c := &caseJSON{Kind: "chunked", Reject: r.Intn(2) == 0}
+		var body string
+		switch r.Intn(5) {
+		case 0: // JSON object of strings
+			l := genPairs(r, true)
+			t := jnode{T: "obj"}
+			seen := map[string]bool{}
+			for _, p := range l {
+				if seen[lowerASCII(p.K)] {
+					continue
+				}
+				seen[lowerASCII(p.K)] = true
+				t.Keys = append(t.Keys, hx(p.K))
+				t.Items = append(t.Items, jnode{T: "s", S: hx(p.V)})
+			}
+			c.Tree, c.Via, c.Ctl = &t, "jsontree", "JSON"
+			c.Pairs = pairsHex([]pair{{"Content-Type", "application/json"}})
+			body = t.serialise()
+		case 1: // raw
+			body = randFrom(r, "ab=&%\x00 ", 1+r.Intn(40))
+			c.Via, c.Ctl, c.BodyHex = "raw", "RAW", hx(body)
+			c.Pairs = pairsHex([]pair{{"Content-Type", "text/plain"}})
+		default:
+			l := genPairs(r, false)
+			if len(l) == 0 {
+				l = []pair{{"a", "1"}}
+			}
+			body = encQueryCanon(l)
+			if r.Intn(2) == 0 {
+				body = encQueryRand(r, l, rawOKBody)
+			}
+			c.Via, c.Orig, c.BodyHex = "urlencoded", pairsHex(l), hx(body)
+			c.Pairs = pairsHex([]pair{{"Content-Type", ctAccepted[r.Intn(len(ctAccepted))]}})
+		}
+		n := len(body)
+		// split points
+		k := 1 + r.Intn(4)
+		var cuts []int
+		for j := 1; j < k && n > 1; j++ {
+			cuts = append(cuts, 1+r.Intn(n-1))
+		}
+		sortInts(cuts)
+		prev := 0
+		api := r.Intn(4) // 3 = mixed
+		for _, x := range append(cuts, n) {
+			a := api
+			if api == 3 {
+				a = r.Intn(3)
+			}
+			c.Chunks = append(c.Chunks, chunkJSON{API: a, Len: x - prev})
+			prev = x
+		}
+		choices := []int{n - 1, n, n + 1, n + 50, 1, n / 2}
+		for _, x := range cuts { // a chunk boundary exactly on the limit, and next to it
+			choices = append(choices, x, x, x, x+1, x-1)
+		}
+		c.BodyLimit = choices[r.Intn(len(choices))]
+		if c.BodyLimit < 1 {
+			c.BodyLimit = 1
+		}
+		if err := run(c); err != nil {
+			return err
+		}
+	}
+	// the witness shape of the seeded defect class: first chunk ends exactly on the limit
+	for _, rej := range []bool{false, true} {
+		for _, api := range []int{0, 1, 2} {
+			l := []pair{{"a", "11111"}, {"b", "22222"}, {"evil", "payload"}}
+			if err := run(&caseJSON{Kind: "chunked", Reject: rej, Via: "urlencoded", Orig: pairsHex(l), BodyHex: hx(encQueryCanon(l)),
+				Pairs: pairsHex([]pair{{"Content-Type", "application/x-www-form-urlencoded"}}), BodyLimit: 16,
+				Chunks: []chunkJSON{{api, 7}, {api, 9}, {api, 3}, {api, 100}}}); err != nil {
+				return err
+			}
+		}
+	}
+
+	// 6e. multipart bodies with 1-3 fields and 1-2 files cut at every offset class, delivered
+	// directly (the client stopped) and through a ProcessPartial limit
+	mpContents := []string{"hello", "", "a", "0123456789", "<?php x ?>", "v=1&w=2", "line1\r\nline2", "--dash", "a\r", "\x00\xff\xfe"}
+	for i := 0; i < cfg.Pick(40, 300); i++ {
+		var parts [][3]string
+		nf, nu := 1+r.Intn(3), 1+r.Intn(2)
+		for j := 0; j < nf; j++ {
+			parts = append(parts, [3]string{hx(fmt.Sprintf("f%d", j)), "", hx(mpContents[r.Intn(len(mpContents))])})
+		}
+		for j := 0; j < nu; j++ {
+			parts = append(parts, [3]string{hx(fmt.Sprintf("up%d", j)), hx(fmt.Sprintf("file%d.php", j)), hx(mpContents[r.Intn(len(mpContents))] + randFrom(r, "abc", r.Intn(12)))})
+		}
+		r.Shuffle(len(parts), func(a, b int) { parts[a], parts[b] = parts[b], parts[a] })
+		l := buildMultipart(parts)
+		cutSet := map[int]bool{len(l.body): true, len(l.body) - 1: true, len(l.body) - 3: true}
+		for j := range parts {
+			h, e := l.hdrEnd[j], l.contentEnd[j]
+			for _, x := range []int{h - 30, h - 12, h - 3, h - 2, h - 1, h, h + 1, (h + e) / 2, e - 1, e, e + 1, e + 2, e + 3, e + 6, e + 2 + 2 + len(mpBoundary)} {
+				if x >= 1 && x <= len(l.body) {
+					cutSet[x] = true
+				}
+			}
+		}
+		if cfg.Thorough() && i%10 == 0 {
+			for x := 1; x <= len(l.body); x++ {
+				cutSet[x] = true
+			}
+		}
+		for x := range cutSet {
+			if x < 1 {
+				continue
+			}
+			if err := run(&caseJSON{Kind: "mptrunc", Parts: parts, Cut: x, Partial: x%2 == 0}); err != nil {
+				return err
+			}
+		}
+	}
+
 	// 7. multipart and XML: implementation-side round trip only (stdlib parsers are not modelled)
 	mpName := func() string {
 		const alpha = "abAB xy_-.[]%;=\"\\"
@@ -433,3 +552,5 @@ func (rn *runner) generate() error {
 	}
 	return nil
 }
+
+func sortInts(a []int) { sort.Ints(a) }
